@@ -78,7 +78,8 @@ META = {
                 "latency, and proves the exact-length, cause and liveness (always finishes, re-triggerable) theorems. "
                 "The real PHYResetController is instantiated for all 400 (R,S) pairs (and several clock frequencies), "
                 "driven with TLC-simulated and seeded-random trigger schedules (idle-time, mid-sequence and held "
-                "triggers) and every recorded cycle is validated by TLC against the specification.",
+                "triggers) and with the reset of its clock domain held 1..2R+2 cycles at start-up, in the reset pulse, "
+                "in the stop phase and while idle; every recorded cycle is validated by TLC against the specification.",
         "note": "A trigger seen while idle must start the reset 1..2 cycles later; a trigger during a running sequence "
                 "may be ignored or honoured right after it. Lengths are given to the constructor as exact binary "
                 "fractions (cycles/frequency) so the documented ceil() conversion is exact. Trusted base: TLC, "
@@ -129,16 +130,18 @@ def _cfg(name):
 
 def _stretch_driver(n, allow_delay, variant):
     use_repo()
-    from amaranth import Elaboratable, Module, Signal
+    from amaranth import ClockDomain, Elaboratable, Module, Signal
     from luna.gateware.utils.cdc import stretch_strobe_signal
 
     class StretchDut(Elaboratable):
         def __init__(self):
             self.strobe = Signal()
             self.out = Signal()
+            self.sync = ClockDomain("sync")       # owned here, so that the domain reset is an input of the bench
 
         def elaborate(self, platform):
             m = Module()
+            m.domains.sync = self.sync
             keep = Signal()                      # keeps the sync domain alive when to_cycles == 1
             m.d.sync += keep.eq(~keep)
             if variant == 0:
@@ -150,7 +153,8 @@ def _stretch_driver(n, allow_delay, variant):
             return m
 
     dut = StretchDut()
-    return CycleDriver(dut, {"s": dut.strobe}, {"o": dut.out}, bool_inputs=("s",), bool_outputs=("o",))
+    return CycleDriver(dut, {"s": dut.strobe, "x": dut.sync.rst}, {"o": dut.out}, bool_inputs=("s", "x"),
+                       bool_outputs=("o",))
 
 
 def _stretch_stimuli(rng, n, quick):
@@ -173,6 +177,17 @@ def _stretch_stimuli(rng, n, quick):
         for _ in range(1 if quick else 4):
             s = [rng.random() < p for _ in range(40 + 6 * n if quick else 150 + 10 * n)]
             out.append(("random%.2f" % p, s + tail))
+    out = [(name, [(b, False) for b in s]) for name, s in out]
+    # reset of the clock domain k cycles after a strobe (held 1 or 2 cycles, once with a strobe during the reset),
+    # then a fresh strobe some cycles after the release: the stretcher must have forgotten the first one
+    for k in range(0, n + 2):
+        h = 1 + k % 2
+        c = [(False, False), (True, False)] + [(False, False)] * k + [(k % 3 == 0, True)] * h
+        c += [(False, False)] * (k % 4) + [(True, False)] + [(False, False)] * (n + 3)
+        out.append(("domain-reset@%d" % k, c))
+    for p in (0.3, 0.08):
+        c = [(rng.random() < p, rng.random() < 0.06) for _ in range(40 + 6 * n if quick else 150 + 10 * n)]
+        out.append(("random%.2f+domain-resets" % p, c + [(False, False)] * (n + 3)))
     return out
 
 
@@ -198,7 +213,8 @@ def check_C55(rep):
                 "or the output is high; distinct by (to_cycles, allow_delay, strobe, output, cycles since last strobe)")
     rep.assume("when allow_delay is set the pulse may start in the strobe's cycle or one cycle later (same choice for "
                "the life of an instance); without allow_delay it starts in the strobe's cycle")
-    rep.assume("the strobe input may take any value in any cycle (no environment restriction)")
+    rep.assume("the strobe input may take any value in any cycle (no environment restriction); the reset of the clock "
+               "domain may be asserted in any cycle for any length and wipes the memory of earlier strobes")
 
     tm.phase("model_check")
     # 1. exhaustive exploration of the specification (all lengths, both delay settings, chosen in Init)
@@ -215,7 +231,7 @@ def check_C55(rep):
                         num=80 if quick else 600, depth=40, seed=rep.seed * 11 + 5, env=JVM_ENV)
     for b in behs:
         st0 = b[0][1]
-        jobs.append((st0["n"], st0["allowDelay"], 0, "tlc-simulate", [st["strobe"] for _, st in b[1:]]))
+        jobs.append((st0["n"], st0["allowDelay"], 0, "tlc-simulate", [(st["strobe"], st["rst"]) for _, st in b[1:]]))
     lengths = list(range(1, 9)) + ([12, 17] if quick else [9, 11, 12, 16, 17, 24, 31, 33])
     for n in lengths:
         for allow in (False, True):
@@ -231,13 +247,13 @@ def check_C55(rep):
         key = (n, allow, variant)
         if key not in drivers:
             drivers[key] = _stretch_driver(n, allow, variant)
-        rec = drivers[key].run([{"s": s} for s in strobes])
+        rec = drivers[key].run([{"s": s, "x": x} for s, x in strobes])
         rep.add_eval(len(rec))
         ago = 99
         for r in rec:
             ago = 0 if r["s"] else min(ago + 1, n + 2)
-            if r["s"] or r["o"]:
-                rep.nontriv((n, allow, r["s"], r["o"], ago))
+            if r["s"] or r["o"] or r["x"]:
+                rep.nontriv((n, allow, r["s"], r["x"], r["o"], ago))
         trace = {"cfg": {"n": n, "allow_delay": bool(allow)}, "steps": rec}
         items.append((trace, {"dut": "stretch_strobe_signal", "to_cycles": n, "allow_delay": bool(allow),
                               "variant": variant, "origin": origin}))
@@ -269,39 +285,83 @@ def kf_c54_counter_range(R, S):
 
 
 def _phy_driver(R, S, por, freq):
+    """PHYResetController inside a module that owns the `sync` clock domain, so that the domain's reset
+    (ResetSignal("sync"), e.g. ~pll_lock in the ECP5 domain generators) is an input of the bench."""
     use_repo()
+    from amaranth import Module, ClockDomain
     from luna.gateware.architecture.car import PHYResetController
     dut = PHYResetController(clock_frequency=freq, reset_length=R / freq, stop_length=S / freq, power_on_reset=por)
     if dut.reset_length_cycles != R or dut.stop_length_cycles != S:
         raise RuntimeError("inexact length conversion for R=%d S=%d f=%s" % (R, S, freq))
-    return CycleDriver(dut, {"t": dut.trigger}, {"r": dut.phy_reset, "s": dut.phy_stop},
-                       bool_inputs=("t",), bool_outputs=("r", "s"))
+    m = Module()
+    m.domains.sync = sync = ClockDomain()
+    m.submodules.dut = dut
+    return CycleDriver(m, {"t": dut.trigger, "x": sync.rst}, {"r": dut.phy_reset, "s": dut.phy_stop},
+                       bool_inputs=("t", "x"), bool_outputs=("r", "s"))
 
 
-def _phy_stimulus(rng, R, S, por, rounds):
-    """Trigger schedule: power-on sequence, then `rounds` of (idle gap, trigger, mid-sequence triggers)."""
+def _phy_stimulus(rng, R, S, por, rounds, holds=()):
+    """Schedule of (trigger, domain reset) per cycle: [domain reset held holds[0] cycles from power-on,] power-on
+    sequence, `rounds` of (idle gap, trigger, mid-sequence triggers), then the domain reset asserted for holds[1],
+    holds[2], holds[3] cycles in the reset pulse, in the stop phase and while idle (each followed by enough cycles
+    for a whole sequence)."""
     seq = R + S
-    t = [False] * (seq + rng.randint(1, 4)) if por else [False] * rng.randint(1, 4)
+    c = []
+
+    def quiet(n):
+        c.extend([(False, False)] * n)
+
+    def hold(k):                                               # domain reset held k cycles; stray triggers are ignored
+        c.extend([(rng.random() < 0.15, True) for _ in range(k)])
+
+    def trig(n=1):
+        c.extend([(True, False)] * n)
+
+    if holds:
+        hold(holds[0])
+    quiet(seq + rng.randint(1, 4) if por else rng.randint(1, 4))
     for _ in range(rounds):
         kind = rng.choice(["pulse", "pulse", "held", "double", "mid", "late"])
         if kind == "pulse":
-            t += [True] + [False] * (seq + rng.randint(1, 5))
+            trig()
+            quiet(seq + rng.randint(1, 5))
         elif kind == "held":                                   # held through the whole sequence and beyond
-            t += [True] * (seq + rng.randint(2, 4)) + [False] * (seq + rng.randint(2, 5))
+            trig(seq + rng.randint(2, 4))
+            quiet(seq + rng.randint(2, 5))
         elif kind == "double":                                 # second trigger in the cycle right after the first
-            t += [True, True] + [False] * (seq + rng.randint(1, 5))
+            trig(2)
+            quiet(seq + rng.randint(1, 5))
         elif kind == "mid":                                    # trigger at a random point of the running sequence
             k = rng.randint(1, seq)
-            body = [False] * (seq + rng.randint(1, 5))
-            body[k - 1] = True
-            t += [True] + body
+            trig()
+            quiet(k - 1)
+            trig()
+            quiet(seq - k + rng.randint(1, 5))
         else:                                                  # trigger in the last cycles of the sequence
-            body = [False] * (seq + 2)
-            body[seq - 1] = True
-            if rng.random() < 0.5:
-                body[seq] = True
-            t += [True] + body + [False] * (seq + rng.randint(1, 4))
-    return t + [False] * 3
+            trig()
+            quiet(seq - 1)
+            trig(2 if rng.random() < 0.5 else 1)
+            quiet(seq + 2 + rng.randint(1, 4))
+    if len(holds) > 1:
+        trig()                                                 # domain reset somewhere in the reset pulse
+        quiet(rng.randint(1, R))
+        hold(holds[1])
+        quiet(seq + rng.randint(1, 4))
+        trig()                                                 # ... in the stop phase
+        quiet(R + rng.randint(1, S))
+        hold(holds[2])
+        quiet(seq + rng.randint(1, 4))
+        hold(holds[3])                                         # ... while idle
+        quiet(seq + rng.randint(1, 4))
+    quiet(3)
+    return c
+
+
+def _phy_holds(R, S, j):
+    """Four domain-reset hold lengths for configuration (R, S): over the S values of one R (and the repetitions j)
+    every length 1 .. 2R+2 occurs, in particular lengths that are not multiples of R."""
+    kmax = 2 * R + 2
+    return [1 + (4 * (S - 1 + 20 * j) + i) % kmax for i in range(4)]
 
 
 def _phy_classify(trace, matched, status, meta):
@@ -325,13 +385,18 @@ def check_C54(rep):
     quick = rep.tier == "quick"
     tm = _Timer(rep)
     rep.rule = ("real PHYResetController cycles recorded and validated against PhyReset.tla; non-trivial = a cycle in "
-                "which a pulse starts or ends or a trigger is applied; distinct by (R, S, phase change, trigger, phase)")
+                "which a pulse starts or ends or a trigger / domain reset is applied; distinct by (R, S, previous phase, "
+                "trigger, domain reset, phase)")
     rep.assume("a trigger seen in an idle cycle must start the reset pulse 1..2 cycles later; triggers arriving during "
                "a running sequence may be ignored or honoured within 2 cycles of the return to idle")
     rep.assume("reset/stop lengths are passed as cycles/clock_frequency with power-of-two frequencies, so the "
                "constructor's ceil() conversion yields exactly R and S cycles")
-    rep.assume("clean stimuli use (R,S) with S <= R rounded up to a power of two (outside open finding "
-               "C54-stop-longer-than-counter); the remaining pairs are witness stimuli for it")
+    rep.assume("the reset of the controller's clock domain may be asserted in any cycle and held for any number of cycles "
+               "(swept: 1..2R+2 cycles at start-up, in the reset pulse, in the stop phase and while idle); while it is "
+               "held the outputs show the power-on state, a trigger coinciding with it is ignored, and after its release "
+               "the controller behaves as from power-on")
+    rep.assume("pairs (R,S) with S > R rounded up to a power of two are kept in a class of their own (witness / "
+               "regression stimuli of finding C54-stop-longer-than-counter)")
 
     tm.phase("model_check")
     # 1. exhaustive exploration of the specification: all pairs at once (configuration chosen in Init)
@@ -356,7 +421,8 @@ def check_C54(rep):
         st0 = b[0][1]
         if kf_c54_counter_range(st0["R"], st0["S"]):
             continue            # keep the model-generated behaviours in the clean class
-        jobs.append((st0["R"], st0["S"], st0["por"], 1, "tlc-simulate", [st["trg"] for _, st in b[1:]] + [False] * 12))
+        jobs.append((st0["R"], st0["S"], st0["por"], 1, "tlc-simulate",
+                     [(st["trg"], st["rst"]) for _, st in b[1:]] + [(False, False)] * 12))
     pairs = [(R, S) for R in range(1, 21) for S in range(1, 21)]
     extra = [(3, 100), (64, 64), (33, 31), (31, 33), (120, 120)] if not quick else [(33, 31), (5, 40)]
     for R, S in pairs + extra:
@@ -364,9 +430,15 @@ def check_C54(rep):
         freq = (1, 2, 4, 0.5)[(R + 3 * S) % 4]
         n = 1 if quick else 4
         for i in range(n):
-            jobs.append((R, S, por, freq, "random", _phy_stimulus(rep.rng, R, S, por, 2 if quick else 5)))
+            jobs.append((R, S, por, freq, "random+domain-resets",
+                         _phy_stimulus(rep.rng, R, S, por, 1 if quick else 4, _phy_holds(R, S, i))))
         if (R + S) % (5 if quick else 2) == 0:
-            jobs.append((R, S, False, 1, "random-no-por", _phy_stimulus(rep.rng, R, S, False, 2 if quick else 5)))
+            jobs.append((R, S, False, 1, "random-no-por+domain-resets",
+                         _phy_stimulus(rep.rng, R, S, False, 1 if quick else 4, _phy_holds(R, S, 5))))
+        if not quick and R <= 20 and S <= 20:
+            # start-up hold sweep: every hold length 1 .. 2R+2 for this configuration
+            for k in range(1, 2 * R + 3):
+                jobs.append((R, S, True, freq, "startup-hold-sweep", _phy_stimulus(rep.rng, R, S, True, 0, [k])))
 
     tm.phase("drive_real_gateware")
     # 3. run on the real module
@@ -378,14 +450,14 @@ def check_C54(rep):
             drivers[key] = _phy_driver(R, S, por, freq)
         kf = kf_c54_counter_range(R, S)
         if kf:
-            trig = trig + [False] * 70       # long enough to tell "never released" from "late"
-        rec = drivers[key].run([{"t": t} for t in trig])
+            trig = trig + [(False, False)] * 70       # long enough to tell "never released" from "late"
+        rec = drivers[key].run([{"t": t, "x": x} for t, x in trig])
         rep.add_eval(len(rec))
         prev = None
         for r in rec:
             phase = (r["r"], r["s"])
-            if r["t"] or phase != prev:
-                rep.nontriv((R, S, prev, r["t"], phase))
+            if r["t"] or r["x"] or phase != prev:
+                rep.nontriv((R, S, prev, r["t"], r["x"], phase))
             prev = phase
         trace = {"cfg": {"R": R, "S": S, "por": bool(por)}, "steps": rec}
         meta = {"dut": "PHYResetController", "reset_cycles": R, "stop_cycles": S, "power_on_reset": bool(por),
@@ -398,12 +470,10 @@ def check_C54(rep):
     # 4. validate with TLC
     big = max(max(R, S) for R, S in pairs + extra)
     cfg = tlc.render_cfg(_cfg("PhyResetTrace.cfg.tmpl"), {"MaxR": big, "MaxS": big})
-    n_clean = validate_group(rep, SPEC_DIR, "PhyResetTrace", cfg, clean, classify=_phy_classify,
-                             env=JVM_ENV, steps_of=lambda t: len(t["steps"]), what_prefix="[clean] ")
-    n_wit = validate_group(rep, SPEC_DIR, "PhyResetTrace", cfg, witness, classify=_phy_classify,
-                           env=JVM_ENV, steps_of=lambda t: len(t["steps"]), what_prefix="[witness C54-stop-longer-than-counter] ")
-    rep.notes.append("clean traces accepted: %d/%d; witness traces (S > pow2ceil(R)) accepted: %d/%d"
-                     % (n_clean, len(clean), n_wit, len(witness)))
+    n_ok = validate_group(rep, SPEC_DIR, "PhyResetTrace", cfg, clean + witness, classify=_phy_classify,
+                          env=JVM_ENV, steps_of=lambda t: len(t["steps"]), chunk=1000)
+    rep.notes.append("traces accepted: %d/%d (%d of them for pairs with S > pow2ceil(R), the regression class of "
+                     "C54-stop-longer-than-counter)" % (n_ok, len(clean) + len(witness), len(witness)))
     tm.phase("end")
 
 
